@@ -219,7 +219,8 @@ func registerIntrinsics(e *Engine) {
 		e.setResult(st, c, TupleV{E: []Value{a[1], IfaceV{}}})
 		return nil
 	}
-	I["(*os.File).Read"] = func(e *Engine, st *State, c ssa.CallInstruction, a []Value) []*State {
+	var fileRead Intrinsic
+	fileRead = func(e *Engine, st *State, c ssa.CallInstruction, a []Value) []*State {
 		p := a[0].(PtrV)
 		if e.load(st, PtrV{Obj: p.Obj, Path: []PathEl{{I: 2}}}) == Value(e.TT.True) {
 			e.setResult(st, c, TupleV{E: []Value{e.TT.Int(0), e.newError(st, "file already closed")}})
@@ -228,7 +229,29 @@ func registerIntrinsics(e *Engine) {
 		content := e.load(st, PtrV{Obj: p.Obj, Path: []PathEl{{I: 0}}}).(StrV)
 		offT := e.load(st, PtrV{Obj: p.Obj, Path: []PathEl{{I: 1}}}).(*Term)
 		if offT.Op != OpConst {
-			e.fail("os.File.Read at a symbolic offset")
+			// merged states with different offsets: split on the offset again
+			leaves, ok := ConstLeaves(offT)
+			if !ok {
+				e.fail("os.File.Read at a symbolic offset")
+			}
+			var out []*State
+			for _, v := range leaves {
+				k := e.TT.Const(64, v)
+				cond := e.TT.Eq(offT, k)
+				if !e.feasible(st, cond) {
+					continue
+				}
+				ch := e.Clone(st)
+				e.addHardPC(ch, cond)
+				e.store(ch, PtrV{Obj: p.Obj, Path: []PathEl{{I: 1}}}, k)
+				if sub := fileRead(e, ch, c, a); sub != nil {
+					out = append(out, sub...)
+				} else {
+					out = append(out, ch)
+				}
+			}
+			st.done = true
+			return out
 		}
 		off := int(offT.SignedVal())
 		b := a[1].(SliceV)
@@ -241,13 +264,29 @@ func registerIntrinsics(e *Engine) {
 		if b.Len < n {
 			n = b.Len
 		}
-		for i := 0; i < n; i++ {
-			e.store(st, PtrV{Obj: b.Arr, Path: []PathEl{{I: b.Off + i}}}, content.B[off+i])
+		finish := func(s2 *State, k int) {
+			for i := 0; i < k; i++ {
+				e.store(s2, PtrV{Obj: b.Arr, Path: []PathEl{{I: b.Off + i}}}, content.B[off+i])
+			}
+			e.store(s2, PtrV{Obj: p.Obj, Path: []PathEl{{I: 1}}}, e.TT.Int(int64(off+k)))
+			e.setResult(s2, c, TupleV{E: []Value{e.TT.Int(int64(k)), IfaceV{}}})
 		}
-		e.store(st, PtrV{Obj: p.Obj, Path: []PathEl{{I: 1}}}, e.TT.Int(int64(off+n)))
-		e.setResult(st, c, TupleV{E: []Value{e.TT.Int(int64(n)), IfaceV{}}})
+		short := e.load(st, PtrV{Obj: p.Obj, Path: []PathEl{{I: 3}}}) == Value(e.TT.True)
+		if short && n >= 2 {
+			// the environment may deliver fewer bytes than asked for: one byte, or all of them
+			sel := e.NewInput(e.fresh("shortread"), 0, nil)
+			one := e.Clone(st)
+			e.addHardPC(one, sel)
+			finish(one, 1)
+			e.addHardPC(st, e.TT.Not(sel))
+			finish(st, n)
+			e.Stats.Forks++
+			return []*State{one, st}
+		}
+		finish(st, n)
 		return nil
 	}
+	I["(*os.File).Read"] = fileRead
 	I["(*os.File).Close"] = func(e *Engine, st *State, c ssa.CallInstruction, a []Value) []*State {
 		p := a[0].(PtrV)
 		e.store(st, PtrV{Obj: p.Obj, Path: []PathEl{{I: 2}}}, e.TT.True)
